@@ -162,6 +162,22 @@ pub fn respell_every_position(a: &[u8], win: bool) -> Vec<Vec<u8>> {
     v
 }
 
+/// one DOT of `a` replaced by a byte that sorts just below / above it (`..` vs `.-`, `a.b` vs `a-b`, `a.` vs `a0`): a
+/// dot decides the KIND of a component (`.`, `..`) and its place in the order, which is not the order of the bytes
+pub fn dot_neighbours(a: &[u8]) -> Vec<Vec<u8>> {
+    let dots: Vec<usize> = a.iter().enumerate().filter(|(_, b)| **b == b'.').map(|(i, _)| i).collect();
+    let step = (dots.len() / 4).max(1);
+    let mut out = Vec::new();
+    for i in dots.iter().step_by(step) {
+        for sub in [b'-', b',', b' ', 0u8, b'0'] {
+            let mut b = a.to_vec();
+            b[*i] = sub;
+            out.push(b);
+        }
+    }
+    out
+}
+
 pub fn pairs_related(dom: &[Vec<u8>], win: bool, nrand: usize, seed: u64) -> Vec<(Vec<u8>, Vec<u8>)> {
     let mut rng = Rng::new(seed ^ 0x51);
     let mut out = Vec::new();
@@ -197,6 +213,10 @@ pub fn pairs_related(dom: &[Vec<u8>], win: bool, nrand: usize, seed: u64) -> Vec
                 out.push((b, a.clone()));
             }
         }
+        for b in dot_neighbours(a) {
+            out.push((a.clone(), b.clone()));
+            out.push((b, a.clone()));
+        }
         for _ in 0..nrand {
             out.push((a.clone(), rng.pick(dom).clone()));
         }
@@ -230,6 +250,10 @@ pub fn pairs_prefixy(dom: &[Vec<u8>], win: bool, nrand: usize, seed: u64) -> Vec
                 let k = 1 + rng.below(b.len() - 1);
                 out.push((a.clone(), b[..k].to_vec()));
             }
+        }
+        for b in dot_neighbours(a) {
+            out.push((a.clone(), b.clone()));
+            out.push((b, a.clone()));
         }
         for _ in 0..nrand {
             out.push((a.clone(), rng.pick(dom).clone()));
@@ -377,6 +401,26 @@ pub fn utf8_dom(tier: &str, seed: u64) -> Vec<Vec<u8>> {
     }
     let alpha: Vec<&[u8]> = vec![b"/", b"\\", b".", b":", b"a", "é".as_bytes(), "日".as_bytes(), "😀".as_bytes(), b"?", b"C"];
     let mut v = strings(&alpha, if t { 5 } else { 4 });
+    // a name followed by `..` (and by `..` and another name), for EVERY kind of name in the pool — drive-like (`C:`), with
+    // forbidden bytes, dotted, multi-byte — after nothing, a root, a drive and each verbatim prefix, with either separator:
+    // "which name does this `..` cancel" must be answered on the components, not on re-read text
+    for name in NAME_POOL.iter().filter(|n| std::str::from_utf8(n).is_ok()) {
+        for pre in [&b""[..], b"d\\", b"/", b"\\", b"C:\\", br"\\?\C:\", br"\\?\pics\", br"\\?\UNC\s\h\", b"//?/C:/"] {
+            for sp in [b'\\', b'/'] {
+                let mut x = pre.to_vec();
+                x.extend_from_slice(name);
+                x.push(sp);
+                x.extend_from_slice(b"..");
+                v.push(x.clone());
+                x.push(sp);
+                x.extend_from_slice("é".as_bytes());
+                v.push(x);
+            }
+        }
+    }
+    for x in [&br"\\?\C:\a/b\..\c"[..], br"\\?\UNC\srv\shr\x/y\..", br"foo\C:\..", br"\\?\C:\d/\..\e"] {
+        v.push(x.to_vec());
+    }
     let tails = strings(&[b"\\", b".", "é".as_bytes(), "日".as_bytes(), b"a"], if t { 4 } else { 3 });
     let seeds: Vec<&[u8]> = vec![b"C:", "\\\\?\\é".as_bytes(), "\\\\?\\UNC\\日\\😀".as_bytes(), "\\\\.\\é".as_bytes(), "\\\\é\\日".as_bytes(), "//é/日".as_bytes()];
     for s in &seeds {
